@@ -33,8 +33,13 @@ RULE = ('(a) every object reachable from compiled selectors of the whole grammar
         'compile(k1) == compile(k2) iff k1 == k2, equal objects have equal hashes, also across purge; (c) random histories of '
         'compile / purge with more distinct patterns than the bound, failing patterns, repeated keys: after every call the '
         'returned object equals a fresh parse and cache_info() (hits, misses, currsize) equals the Lean LRU model\'s; currsize '
-        'never exceeds the bound; purge empties; (d) compile(compiled) is the same object, and rejects flags / namespaces / '
-        'custom with ValueError. Non-trivial (c) = histories in which an eviction happens. (e) ACROSS PROCESSES: a batch of '
+        'never exceeds the bound; purge empties; (d) CALL HISTORIES compile(key) -> c, then any of: purge, a few / bound-1 / bound / '
+        'more than bound other distinct compiles, compiling the same or another key again, copy / deepcopy / pickle (every '
+        'protocol) of c, then compile(c) resp. compile(clone): the result IS the object handed in (also with flags=0), flags / '
+        'namespaces / custom (empty, other, the selector\'s own) raise ValueError, select / iselect / select_one / match / filter / '
+        'closest called with the compiled object give what its methods give and reject the same extras, every compile in the '
+        'history is == (same hash, part by part) to the compile of that key on an empty cache; a grid (every key x every '
+        'interlude) and random histories. Non-trivial (c) = histories in which an eviction happens. (e) ACROSS PROCESSES: a batch of '
         'compiled selectors (generated patterns, namespace / custom maps incl. several entries, both orders, str-subclass '
         'keys and values, flags) is pickled (every protocol) in an interpreter started with one PYTHONHASHSEED and unpickled '
         'in interpreters started with other PYTHONHASHSEED values (hash randomisation off included) and in the checking '
@@ -289,6 +294,277 @@ def cross_process(chk, rng, pats, quick, only_keys=None):
     return bad, counts
 
 
+# ---------------------------------------------------------------------------------------------------------------------
+# (d) pass-through of compiled objects, over call HISTORIES.  A history is a JSON-able list of operations; the objects the
+# operations return are numbered in the order they come into being ("handles"):
+#   ['compile', key]            compile(*key) (key as written by describe_key)                      -> new handle
+#   ['purge']                   purge()
+#   ['fill', n]                 n compiles of distinct patterns that no key and no other operation uses (n >= the cache bound: everything
+#                               compiled before is evicted)
+#   ['clone', how, h]           copy.copy / copy.deepcopy / pickle round trip (how = 'pickle<protocol>') of handle h -> new handle
+#   ['pass', h, extras]         compile(handle h, **extras): without extras (or flags=0, the default) it must be THE object
+#                               handed in, with flags / namespaces / custom it must raise ValueError
+#   ['api', name, h, extras]    soupsieve.<name>(handle h, <tag or tags>, **extras): the module-level functions take a compiled
+#                               object too: the result of handle.<name>(...) resp. ValueError
+# and, whatever came before: every object compile returns is == (same hash) to the first compile of that key after a purge,
+# clones are == to their original, currsize stays within the bound, purge empties the cache.
+# ---------------------------------------------------------------------------------------------------------------------
+API_NAMES = ('select', 'iselect', 'select_one', 'match', 'filter', 'closest')
+CLONE_HOWS = ('copy', 'deepcopy') + tuple(f'pickle{i}' for i in range(pickle.HIGHEST_PROTOCOL + 1))
+REJECTED_EXTRAS = ({'flags': 1}, {'flags': True}, {'flags': sv.DEBUG}, {'namespaces': {}}, {'namespaces': {'a': 'b'}}, {'namespaces': 'own'},
+                   {'custom': {}}, {'custom': {':--x': 'p'}}, {'custom': 'own'}, {'flags': 1, 'namespaces': {}, 'custom': {}})
+
+
+def history_docs(doc_seed):
+    return [gen.build_doc('xml', XML_TOP), gen.build_doc(*gen.gen_state_doc(random.Random(doc_seed)))]
+
+
+def _api(fn_of, name, docs, which):
+    """Result of one of the six entry points (`fn_of(name)` is the callable), as indices / bools."""
+    doc = docs[which % len(docs)]
+    els = gen.elements(doc)
+    idx = {id(e): i for i, e in enumerate(els)}
+    tag = els[which % len(els)] if els else doc
+
+    def ix(e):
+        return None if e is None else idx.get(id(e), -1)
+    with contextlib.redirect_stdout(io.StringIO()):
+        if name in ('select', 'iselect'):
+            return [ix(e) for e in fn_of(name)(doc)]
+        if name == 'select_one':
+            return ix(fn_of(name)(doc))
+        if name == 'match':
+            return bool(fn_of(name)(tag))
+        if name == 'closest':
+            return ix(fn_of(name)(tag))
+        return [ix(e) for e in fn_of(name)(els)]
+
+
+def run_history(ops, doc_seed=0, refs=None):
+    """Run a history (see above) on the real library.  Returns (finding or None, counts)."""
+    N = cp._MAXCACHE
+    docs = history_docs(doc_seed)
+    refs = {} if refs is None else refs     # key (json) -> what compile returned for it the first time, right after a purge
+    handles = []                            # (object, key, origin: 'compile' | how it was cloned)
+    counts = {'pass': 0, 'pass_after_purge_or_eviction': 0, 'pass_of_clone': 0, 'rejected': 0, 'api': 0, 'evicting_fills': 0}
+    lost = set()                            # handles whose cache entry is certainly gone (purge / overflow since they were compiled)
+
+    def fail(i, what, **more):
+        return dict({'what': what, 'passthrough': True, 'history': ops, 'failing_step': i, 'failing_op': ops[i] if i < len(ops) else 'end',
+                     'doc_seed': doc_seed, 'handles': [f'h{j}: {o} of {json.dumps(k)}' for j, (_, k, o) in enumerate(handles)],
+                     'sequence': 'c = soupsieve.compile(*key); ... purge() / other compiles / copies ...; soupsieve.compile(c) is c'}, **more)
+
+    def ref_for(key):
+        kj = json.dumps(key, sort_keys=True)
+        if kj not in refs:
+            if cp._cached_css_compile.cache_info().currsize:
+                raise RuntimeError('reference compiles are made on an empty cache')
+            refs[kj] = compile_key(undescribe_key(key))
+            sv.purge()
+        return refs[kj]
+
+    def extras_of(extras, h):
+        out = {}
+        for a, v in extras.items():
+            if v == 'own':
+                own = getattr(handles[h][0], a)
+                v = dict(own) if own is not None else {}
+            out[a] = v
+        return out
+    cur = 0
+    sv.purge()
+    for op in ops:                          # the references first: a history starts on an empty cache
+        if op[0] == 'compile':
+            ref_for(op[1])
+    try:
+        for i, op in enumerate(ops):
+            cur = i
+            if op[0] == 'compile':
+                ref = ref_for(op[1])
+                got = compile_key(undescribe_key(op[1]))
+                handles.append((got, op[1], 'compile'))
+                f = value_findings(got, ref, 'compile(key) after this history')[0]
+                if f:
+                    return fail(i, f[0].replace('a fresh compile of the same arguments', 'what compile(key) returned on an empty cache')), counts
+            elif op[0] == 'purge':
+                sv.purge()
+                lost.update(range(len(handles)))
+                if cp._cached_css_compile.cache_info().currsize != 0:
+                    return fail(i, 'purge() did not empty the cache'), counts
+            elif op[0] == 'fill':
+                for j in range(op[1]):
+                    sv.compile(f'[data-fill-{i}="{j}"]')
+                if op[1] >= N:
+                    lost.update(range(len(handles)))
+                    counts['evicting_fills'] += 1
+            elif op[0] == 'clone':
+                o, k, _ = handles[op[2]]
+                if op[1] == 'copy':
+                    cl = copy.copy(o)
+                elif op[1] == 'deepcopy':
+                    cl = copy.deepcopy(o)
+                else:
+                    cl = pickle.loads(pickle.dumps(o, protocol=int(op[1][6:])))
+                handles.append((cl, k, op[1]))
+                if type(cl) is not type(o) or not (cl == o) or cl != o or hash(cl) != hash(o):
+                    return fail(i, f'{op[1]} of a compiled selector is not an == object with the same hash'), counts
+            elif op[0] == 'pass':
+                o, k, origin = handles[op[1]]
+                ex = extras_of(op[2], op[1])
+                rejected = bool(ex.get('flags')) or ex.get('namespaces') is not None or ex.get('custom') is not None
+                try:
+                    with contextlib.redirect_stdout(io.StringIO()):
+                        r = sv.compile(o, **ex)
+                except ValueError:
+                    if not rejected:
+                        return fail(i, f'compile(compiled{", **" + repr(ex) if ex else ""}) raised ValueError'), counts
+                    counts['rejected'] += 1
+                    continue
+                if rejected:
+                    return fail(i, f'compile(compiled, **{ex!r}) was accepted: extra arguments with a compiled selector must raise ValueError'), counts
+                counts['pass'] += 1
+                counts['pass_after_purge_or_eviction'] += op[1] in lost
+                counts['pass_of_clone'] += origin != 'compile'
+                if r is not o:
+                    same = [j for j, (x, _, _) in enumerate(handles) if x is r]
+                    return fail(i, 'compile(compiled) did not return the object it was given'
+                                + (' (a copy / unpickled selector was handed in)' if origin != 'compile' else '')
+                                + (' (its cache entry had been purged / evicted)' if op[1] in lost and origin == 'compile' else ''),
+                                returned=(f'handle h{same[0]}' if same else 'an object that no earlier call had returned') +
+                                (', == to the argument' if r == o else ', not even == to the argument')), counts
+            elif op[0] == 'api':
+                o, k, origin = handles[op[2]]
+                ex = extras_of(op[3], op[2])
+                counts['api'] += 1
+                want = _api(lambda nme: getattr(o, nme), op[1], docs, i)
+                try:
+                    got = _api(lambda nme: (lambda x: getattr(sv, nme)(o, x, **ex)), op[1], docs, i)
+                except ValueError:
+                    if not ex:
+                        return fail(i, f'soupsieve.{op[1]}(compiled, ...) raised ValueError'), counts
+                    continue
+                if ex:
+                    return fail(i, f'soupsieve.{op[1]}(compiled, ..., **{ex!r}) was accepted: extra arguments with a compiled selector must raise ValueError'), counts
+                if got != want:
+                    return fail(i, f'soupsieve.{op[1]}(compiled, x) differs from compiled.{op[1]}(x)', module_level=got, method=want), counts
+            else:
+                raise ValueError(f'unknown history operation {op!r}')
+            ci = cp._cached_css_compile.cache_info()
+            if ci.currsize > N or ci.maxsize != N:
+                return fail(i, 'cache exceeded its bound', currsize=ci.currsize), counts
+        cur = len(ops)
+        for j, (o, k, origin) in enumerate(handles):        # nothing the history did changed an object it had handed out
+            ref = ref_for(k)
+            if not (o == ref) or hash(o) != hash(ref):
+                return fail(len(ops), f'at the end of the history handle h{j} is no longer == to a compile of its key on an empty cache'), counts
+    except framework.LibraryDidNotTerminate:
+        raise
+    except Exception as e:
+        return fail(cur, f'the history raised {e!r}'), counts
+    finally:
+        sv.purge()
+    return None, counts
+
+
+def history_keys(rng, pats, n):
+    """Keys that compile, as describe_key() writes them: small and generated patterns, with / without maps, both flag values,
+    str-subclass patterns."""
+    ns_pool = [None, None, {}, {'svg': gen.SVG}, {'x': 'urn:x', 'svg': gen.SVG}, {'svg': gen.SVG, '': 'urn:x'}]
+    cu_pool = [None, None, {}, {':--c1': 'div > *'}, {':--c1': 'div > *', ':--c2': 'p, i'}]
+    small = ['p', 'svg|circle', '*|circle:not(svg|*)', ':--c1', 'x|p, :--c2', 'div > :--c1', 'div > :is(p, i):nth-child(2n+1)', '*|*', S('p'),
+             'p:not(.b)', ':root', 'input:checked, option:default', 'p ', ':has(> p)']
+    keys, tries = [], 0
+    while len(keys) < n and tries < 30 * n:
+        tries += 1
+        pat = rng.choice(pats) if pats and rng.random() < 0.4 else rng.choice(small)
+        k = (pat, rng.choice(ns_pool), rng.choice(cu_pool), rng.choice([0, 0, 0, 1, False]))
+        try:
+            sv.purge()
+            compile_key(k)
+        except Exception:
+            continue
+        d = describe_key(k)
+        if d not in keys:
+            keys.append(d)
+    sv.purge()
+    return keys
+
+
+def history_grid(keys, N):
+    """Every key x every way a compiled object can have lost / never had its place in the cache, then handed back."""
+    out = []
+    for n, k in enumerate(keys):
+        other = keys[(n + 1) % len(keys)]
+        interludes = [[], [['purge']], [['fill', 3]], [['compile', other]], [['purge'], ['compile', k]], [['purge'], ['compile', other]]]
+        if n < 3:
+            interludes += [[['fill', N + 7]], [['fill', N + 7], ['compile', k]], [['fill', N - 1]], [['fill', N]]]
+        for inter in interludes:
+            nh = 1 + sum(1 for o in inter if o[0] == 'compile')
+            out.append([['compile', k]] + inter + [['pass', 0, {}]] + [['pass', j, {}] for j in range(1, nh)] + [['pass', 0, {'flags': 0}]])
+        for m, how in enumerate(CLONE_HOWS):
+            if how.startswith('pickle') and (n + m) % 3:
+                continue
+            out.append([['compile', k], ['clone', how, 0], ['pass', 1, {}], ['pass', 0, {}], ['purge'], ['pass', 1, {}], ['pass', 0, {}]])
+        out.append([['compile', k], ['purge']] + [['pass', 0, ex] for ex in REJECTED_EXTRAS] +
+                   [['api', nme, 0, {}] for nme in API_NAMES] + [['api', API_NAMES[n % 6], 0, REJECTED_EXTRAS[n % len(REJECTED_EXTRAS)]]])
+    return out
+
+
+def random_history(rng, keys, N, big_ok):
+    ops = [['compile', rng.choice(keys)]]
+    nh = 1
+    for _ in range(rng.randint(3, 14)):
+        x = rng.random()
+        if x < 0.2:
+            ops.append(['compile', rng.choice(keys if rng.random() < 0.5 else keys[:3])])
+            nh += 1
+        elif x < 0.32:
+            ops.append(['purge'])
+        elif x < 0.42:
+            big = big_ok and rng.random() < 0.25
+            ops.append(['fill', N + rng.randint(0, 20) if big else rng.randint(1, 6)])
+        elif x < 0.55:
+            ops.append(['clone', rng.choice(CLONE_HOWS), rng.randrange(nh)])
+            nh += 1
+        elif x < 0.85:
+            ops.append(['pass', rng.randrange(nh), rng.choice([{}, {}, {}, {'flags': 0}, {'flags': False}])])
+        elif x < 0.92:
+            ops.append(['pass', rng.randrange(nh), rng.choice(REJECTED_EXTRAS)])
+        else:
+            ops.append(['api', rng.choice(API_NAMES), rng.randrange(nh), rng.choice([{}, {}, {}] + list(REJECTED_EXTRAS))])
+    ops.append(['pass', rng.randrange(nh), {}])
+    return ops
+
+
+def passthrough_histories(chk, rng, pats, quick):
+    """Sub-check (d).  Returns (violations, counts)."""
+    N = cp._MAXCACHE
+    keys = history_keys(rng, pats, 10 if quick else 60)
+    hists = history_grid(keys, N)
+    grid = len(hists)
+    big = 0
+    for _ in range(60 if quick else 3000):
+        h = random_history(rng, keys, N, big < (4 if quick else 200))
+        big += any(o[0] == 'fill' and o[1] >= N for o in h)
+        hists.append(h)
+    bad, total, refs = [], {}, {}
+    doc_seed = rng.randrange(2 ** 31)
+    kinds = set()
+    for h in hists:
+        f, counts = run_history(h, doc_seed, refs)
+        for a, b in counts.items():
+            total[a] = total.get(a, 0) + b
+        if f is not None and f['what'] not in kinds:        # one (the first = shortest grid) history per kind of finding
+            kinds.add(f['what'])
+            bad.append(f)
+    counts = {'passthrough_histories': len(hists), 'passthrough_grid_histories': grid, 'passthrough_keys': len(keys),
+              'passthrough_operations': sum(len(h) for h in hists), 'passthrough_identity_checks': total.get('pass', 0),
+              'passthrough_identity_checks_after_purge_or_eviction': total.get('pass_after_purge_or_eviction', 0),
+              'passthrough_identity_checks_of_clones': total.get('pass_of_clone', 0), 'passthrough_extra_arguments_rejected': total.get('rejected', 0),
+              'passthrough_api_calls': total.get('api', 0), 'passthrough_histories_with_overflow': total.get('evicting_fills', 0)}
+    return bad, counts
+
+
 def _valid(m):
     try:
         ct.CustomSelectors(m)
@@ -498,18 +774,10 @@ def run(chk):
     xbad, xcounts = cross_process(chk, rng, pats, quick)
     bad.extend(xbad)
     evaluations += xcounts['cross_process_unpickles']
-    # ---------------- (d) pass-through
-    c = sv.compile('p')
-    if sv.compile(c) is not c:
-        bad.append({'what': 'compile(compiled) is not the same object'})
-    for kw in ({'flags': 1}, {'namespaces': {}}, {'custom': {}}):
-        try:
-            sv.compile(c, **kw)
-            bad.append({'what': f'compile(compiled, {kw}) was accepted'})
-        except ValueError:
-            pass
-        except Exception as e:
-            bad.append({'what': f'compile(compiled, {kw}) raised {type(e).__name__}'})
+    # ---------------- (d) pass-through: compile(compiled) is the object handed in, whatever happened since it was compiled
+    pbad, pcounts = passthrough_histories(chk, rng, pats, quick)
+    bad.extend(pbad)
+    evaluations += pcounts['passthrough_operations']
     # ---------------- (c) cache histories vs the LRU model
     N = cp._MAXCACHE
     hist_bad, evictions = [], 0
@@ -558,7 +826,7 @@ def run(chk):
     chk.samples = [{'classes_exercised': sorted(classes_seen)}, {'history_ops': py_infos[0][1][:20] if py_infos else []}]
     chk.coverage.update({'patterns_for_object_protocol': len(pats), 'classes_exercised': sorted(classes_seen), 'operations': evaluations,
                          'violations': len(bad) + len(hist_bad), 'cache_histories': len(lines), 'histories_with_evictions': evictions,
-                         'cache_model_mismatches': len(corr_bad), 'cache_bound': N, 'map_pairs_eq_hash': map_pairs, **xcounts})
+                         'cache_model_mismatches': len(corr_bad), 'cache_bound': N, 'map_pairs_eq_hash': map_pairs, **xcounts, **pcounts})
     for i, b in enumerate((bad + hist_bad)[:6]):
         chk.violation(f'v{i}', b, concrete=True)
     for i, b in enumerate(corr_bad[:3]):
@@ -579,4 +847,10 @@ def replay(chk, path):
         for b in bad:
             print(json.dumps(b['what']))
         return 1 if bad else 0
+    if data.get('passthrough') and data.get('history'):
+        f, _ = run_history(data['history'], data.get('doc_seed', 0))
+        if f is not None:
+            print(json.dumps({k: f[k] for k in ('what', 'failing_step', 'failing_op', 'returned') if k in f}))
+            print(f'VIOLATION property={PID} replay={path}')
+        return 1 if f is not None else 0
     return 0
